@@ -181,13 +181,15 @@ theorem nodeFacts_comment_delims {s : Str} {ts : List Token} {g : SpanKey → Op
   · show t.start = _
     rw [hstart, hst]; rfl
 
-/-- The PI at `q`: `<?`, the target (= the `PiTarget` span), white space, the data as written (= the
-    `PiContent` span when the node has data; empty otherwise), `?>`. -/
+/-- The PI at `q`: the source reads `<?`, the target (= the `PiTarget` span), white space, the data as
+    written (= the `PiContent` span when the node has data; empty otherwise), `?>`. -/
 def PiDelims (s : Str) (g : SpanKey → Option Span) (q : Path) (d : Option Str) : Prop :=
-  ∃ target ws body, (∀ c ∈ ws, isXmlSpace c = true) ∧
-    SlicesBetween s g ⟨q, .piTarget⟩ Lex.litPiOpen target (ws ++ body ++ Lex.litPiClose) ∧
-    (∀ c, d = some c → SlicesBetween s g ⟨q, .piContent⟩ (Lex.litPiOpen ++ target ++ ws) body Lex.litPiClose ∧
-      c = normalizeLineEnds body) ∧
+  ∃ target ws body a b, (∀ c ∈ ws, isXmlSpace c = true) ∧
+    s = a ++ Lex.litPiOpen ++ target ++ ws ++ body ++ Lex.litPiClose ++ b ∧
+    (∃ sp, g ⟨q, .piTarget⟩ = some sp ∧ sp.start = strLen a + 2 ∧ sp.stop = sp.start + strLen target) ∧
+    (∀ c, d = some c → c = normalizeLineEnds body ∧
+      ∃ sp, g ⟨q, .piContent⟩ = some sp ∧ sp.start = strLen a + 2 + strLen target + strLen ws ∧
+        sp.stop = sp.start + strLen body) ∧
     (d = none → body = [])
 
 theorem nodeFacts_pi_delims {s : Str} {ts : List Token} {g : SpanKey → Option Span} {env : Env} {scope : NsStack}
@@ -196,10 +198,10 @@ theorem nodeFacts_pi_delims {s : Str} {ts : List Token} {g : SpanKey → Option 
   obtain ⟨tg, c, sp, hm, h1, h2, h3, h4, h5⟩ := h
   obtain ⟨ws, body, htext, hws, htg, hcs, hnone⟩ := hl2.delims _ hm
   obtain ⟨a, b, hsrc, hst⟩ := (hl.slices _ hm).2.2
-  refine ⟨tg.text, ws, body, hws, ⟨tg.span, a, b, h1, ?_, ?_, rfl⟩, ?_, ?_⟩
+  refine ⟨tg.text, ws, body, a, b, hws, ?_, ⟨tg.span, h1, ?_, rfl⟩, ?_, ?_⟩
   · rw [hsrc, htext]; simp only [List.append_assoc]
   · show tg.start = _
-    rw [htg, hst]; rfl
+    rw [htg, hst]
   · intro c' hc'
     subst h3
     cases c with
@@ -207,13 +209,9 @@ theorem nodeFacts_pi_delims {s : Str} {ts : List Token} {g : SpanKey → Option 
     | some cs =>
       simp only [Option.map_some, Option.some.injEq] at hc'
       obtain ⟨hb, hstart⟩ := hcs cs rfl
-      refine ⟨⟨cs.span, a, b, h4 cs rfl, ?_, ?_, by rw [← hb]; rfl⟩, by rw [← hc', hb]⟩
-      · rw [hsrc, htext]; simp only [List.append_assoc]
-      · show cs.start = _
-        rw [hstart, hst]
-        simp only [strLen_append]
-        have : strLen Lex.litPiOpen = 2 := by decide
-        omega
+      refine ⟨by rw [← hc', hb], cs.span, h4 cs rfl, ?_, by rw [← hb]; rfl⟩
+      show cs.start = _
+      rw [hstart, hst]
   · intro hd
     subst h3
     cases c with
@@ -279,9 +277,12 @@ theorem textFacts_mode {s : Str} {ts : List Token} {g : SpanKey → Option Span}
     (hl : LexFacts s ts) (hl2 : LexFacts2 s ts) (h : TextFacts ts g q v) :
     ∃ run sp, run <:+: ts ∧ run ≠ [] ∧ (∀ t ∈ run, t.isCharData = true) ∧ g ⟨q, .text⟩ = some sp ∧
       sliceBytes s sp.start sp.stop = some (runSlice run) ∧ runValue run = some v ∧
-      startsInCdata run = cdataOpenBefore s sp.start := by
+      startsInCdata run = cdataOpenBefore s sp.start ∧
+      decodeRun (cdataOpenBefore s sp.start) (runSlice run) = some v := by
   obtain ⟨run, sp, hin, hne, hall, hadj, hok, hv, hg, hsl⟩ := TextFacts.slice hl h
-  refine ⟨run, sp, hin, hne, fun t ht => (hall t ht).1, hg, hsl, hv, ?_⟩
+  suffices hmode : startsInCdata run = cdataOpenBefore s sp.start by
+    refine ⟨run, sp, hin, hne, fun t ht => (hall t ht).1, hg, hsl, hv, hmode, ?_⟩
+    rw [← hmode, decodeRun_runSlice ⟨hall, hadj⟩, hv]
   obtain ⟨t0, r0, f, hrun, hreal, hf, hstart⟩ := hok.first
   have hmem0 : t0 ∈ ts := hin.subset (by rw [hrun]; simp)
   cases t0 with
@@ -331,7 +332,8 @@ theorem parseString_text_mode {m : Mode} {env : Env} {s : Str} {p : Parsed} (h :
     {q : Path} {v : Str} {ks : List Tree} (hat : p.tree.at? q = some (.node (.text v) ks)) :
     ∃ run sp, run <:+: (lexMode m s).1 ∧ run ≠ [] ∧ (∀ t ∈ run, t.isCharData = true) ∧
       p.spans.get ⟨q, .text⟩ = some sp ∧ sliceBytes s sp.start sp.stop = some (runSlice run) ∧
-      runValue run = some v ∧ startsInCdata run = cdataOpenBefore s sp.start := by
+      runValue run = some v ∧ startsInCdata run = cdataOpenBefore s sp.start ∧
+      decodeRun (cdataOpenBefore s sp.start) (runSlice run) = some v := by
   have hd := build_desc h
   have := desc_at q p.tree baseStack [] (.text v) ks hd hat
   rw [List.nil_append] at this
